@@ -84,9 +84,14 @@ impl LayerRec {
 }
 
 pub fn iced_header(w: u32, h: u32) -> Vec<u8> {
+    iced_header_typed(w, h, 1)
+}
+
+/// header with the given buffer type (0 Unicode, 1 CP437, 2 Petscii, 3 Atascii, 4 Viewdata)
+pub fn iced_header_typed(w: u32, h: u32, buffer_type: u16) -> Vec<u8> {
     let mut r = vec![0u8, 0];
     r.extend(0u32.to_le_bytes());
-    r.extend(1u16.to_le_bytes());
+    r.extend(buffer_type.to_le_bytes());
     r.push(0);
     r.push(1);
     r.push(1);
